@@ -1651,6 +1651,16 @@ func runC19(c *Ctx) {
 				m.SetTF(t, "#0", gvInt(9))
 				m.SetTF(t, "#5#1.k", gvInt(9))
 				m.UnsetTF(t, "#0")
+				// every shape of a tree-form write: an existing index, the index equal to the length, indexes behind the
+				// end (padding), as a leaf and with a remainder of either kind; the unset of an existing and a missing index
+				n := m.L(t).Count()
+				for _, tf := range []string{"#" + strconv.Itoa(n), "#" + strconv.Itoa(n+3), "#" + strconv.Itoa(n+5) + ".k", "#" + strconv.Itoa(n+7) + "#2",
+					"#1", "#1.k", "#1#0", "#" + strconv.Itoa(n+8) + ".a.b", "#" + strconv.Itoa(n+9) + "#0#0"} {
+					m.SetTF(t, tf, gvInt(4))
+				}
+				m.UnsetTF(t, "#1#0")
+				m.UnsetTF(t, "#"+strconv.Itoa(m.L(t).Count()-1))
+				m.UnsetTF(t, "#"+strconv.Itoa(m.L(t).Count()+4))
 				m.Clear(t)
 				m.Sort(t)    // an empty list cannot be sorted (run-time panic): in particular nothing else is returned
 				m.Reverse(t) // Reverse of the empty list is fluent
@@ -1675,6 +1685,12 @@ func runC19(c *Ctx) {
 				m.OSetTF(t, ".c.d", gvInt(3))
 				m.OSetTF(t, ".e#1", gvInt(3))
 				m.OUnsetTF(t, ".c.d")
+				for _, tf := range []string{".a", ".new", ".c", ".c.d.e", ".e#0", ".e#7", ".e#2.k", ".l#3#1", ".a.over", ".a#2"} {
+					m.OSetTF(t, tf, gvInt(4))
+				}
+				m.OUnsetTF(t, ".e#0")
+				m.OUnsetTF(t, ".missing")
+				m.OUnsetTF(t, ".new")
 				m.OClear(t)
 				m.OSet(t, gvStr("a"), gvInt(1))
 			}
